@@ -1811,6 +1811,7 @@ size_t ZSTD_DCtx_refDDict(ZSTD_DCtx* dctx, const ZSTD_DDict* ddict)
         dctx->ddict = ddict;
         dctx->dictUses = ZSTD_use_indefinitely;
         if (dctx->refMultipleDDicts == ZSTD_rmd_refMultipleDDicts) {
+            RETURN_ERROR_IF(dctx->staticSize, memory_allocation, "static DCtx can't allocate the multi-DDict set");
             if (dctx->ddictSet == NULL) {
                 dctx->ddictSet = ZSTD_createDDictHashSet(dctx->customMem);
                 if (!dctx->ddictSet) {
